@@ -20,8 +20,8 @@ CheckDec(env, s) ==
 \* bech32 (BIP173) -------------------------------------------------------------
 Bech32Enc(hrp, data) ==
   IF \E k \in 1..Len(data) : data[k] > 31 THEN [ok |-> FALSE, s |-> <<>>]
-  ELSE [ok |-> TRUE,
-        s |-> hrp \o <<49>> \o [k \in 1..(Len(data) + 6) |-> CharOf32((data \o BechChecksum(hrp, data))[k])]]
+  ELSE LET all == data \o BechChecksum(hrp, data)     \* hoisted: function constructors are lazy in TLC
+       IN [ok |-> TRUE, s |-> hrp \o <<49>> \o [k \in 1..Len(all) |-> CharOf32(all[k])]]
 
 BechFail == [ok |-> FALSE, hrp |-> <<>>, data |-> <<>>]
 Bech32Dec(s0) ==
